@@ -38,6 +38,7 @@ class Program:
     res_q: int = 2
     days: tuple = (0,)
     features: tuple = ()
+    mc_only: bool = False   # too large to dump/replay: model-checked only
 
     def updates(self):
         return list(range(1, self.n_updates + 1))
@@ -132,16 +133,26 @@ def programs():
                         {1: dict(parent=0, upd=1), 2: dict(parent=1, upd=2)}, 2)
     # two attempts, two instances: preemption / rescheduling / stale attempts, deactivation
     P["retry"] = Program("retry", {1: job(), 2: job(par=[1], cores=250)}, {}, 1, att_ids=("a1", "a2"), insts=("i1", "i2"),
-                         features=("deactivate",))
+                         features=("deactivate",), mc_only=True)
     # job-private instances (Creating state)
     P["jpim"] = Program("jpim", {1: job(grp=1), 2: job(grp=1, always=True, cores=250)}, {1: dict(parent=0, upd=1)}, 1,
                         insts=("i1", "i2"), features=("jpim", "deactivate"))
     # billing: one job in a nested group, two attempts, times 0..2, two days
     P["billing"] = Program("billing", {1: job(grp=1)}, {1: dict(parent=0, upd=1)}, 1, att_ids=("a1", "a2"), times=(0, 1, 2),
-                           days=(0, 1), features=("billing", "deactivate"))
+                           days=(0, 1), features=("billing", "deactivate"), mc_only=True)
     # cleaners and deletion
     P["clean"] = Program("clean", {1: job(grp=1), 2: job(upd=2, grp=1, par=[1], cores=250)}, {1: dict(parent=0, upd=1)}, 2,
                          features=("cleaners", "delete"))
+    # ---- small variants for the quick tier ----
+    P["nest_s"] = Program("nest_s", {1: job(grp=2), 2: job(grp=1, par=[1], always=True, cores=250)},
+                          {1: dict(parent=0, upd=1), 2: dict(parent=1, upd=1)}, 1)
+    P["sib"] = Program("sib", {1: job(grp=1), 2: job(grp=2, cores=250)}, {1: dict(parent=0, upd=1), 2: dict(parent=0, upd=1)}, 1)
+    P["jpim_s"] = Program("jpim_s", {1: job(grp=1)}, {1: dict(parent=0, upd=1)}, 1, features=("jpim", "deactivate"))
+    P["retry_s"] = Program("retry_s", {1: job()}, {}, 1, att_ids=("a1", "a2"), insts=("i1", "i2"), features=("deactivate",))
+    P["billing_s"] = Program("billing_s", {1: job(grp=1)}, {1: dict(parent=0, upd=1)}, 1, times=(0, 1), days=(0, 1),
+                             features=("billing",))
+    P["billing_m"] = Program("billing_m", {1: job(grp=1)}, {1: dict(parent=0, upd=1)}, 1, att_ids=("a1", "a2"), times=(0, 1),
+                             days=(0, 1), features=("billing", "deactivate"), mc_only=True)
     for p in P.values():
         p.check()
     return P
@@ -522,7 +533,8 @@ def run_property(ctx, pid, invariants, properties, quick_programs, thorough_prog
     for n in names:
         p = P[n]
         # (1) the property on the specification, every recorded scenario avoided
-        res, wd = run_tlc(ctx, p, avoid=ALL_AVOID, invariants=["TypeOK"] + list(invariants), properties=list(properties), dump=True)
+        res, wd = run_tlc(ctx, p, avoid=ALL_AVOID, invariants=["TypeOK"] + list(invariants), properties=list(properties),
+                          dump=not p.mc_only)
         ctx.add_tlc(res, f"BatchDB program {n}: exhaustive, invariants {list(invariants)}, action properties {list(properties)}"
                          + (" (TLC result cached from an earlier run of the same spec+config)" if getattr(res, "cached", False) else ""))
         for v in res.violations:
@@ -535,7 +547,7 @@ def run_property(ctx, pid, invariants, properties, quick_programs, thorough_prog
                 ctx.violation(f"batchdb:{v.name}:{n}", detail)
             else:
                 raise RuntimeError(f"specification violates {v.name} on program {n} but the code does not follow the trace: {detail}")
-        if res.violations:
+        if res.violations or p.mc_only:
             continue
         # (2) B1: the code has the specification's transition relation on this graph
         g = tlc.parse_dot(wd / "graph.dot")
